@@ -232,6 +232,9 @@ class LoopSpec:
         cx.oblige(f'decreases.{lab}', dec, 'decreases', lineno)
 
     def _assume_cond(self, E, cx, c, val):
+        if hasattr(c, '__pyvc_len__') and not isinstance(c, (SB, bool)):
+            ln = c.__pyvc_len__()
+            c = SB(ln.e != 0) if isinstance(ln, SV) else (ln != 0)
         if isinstance(c, SB):
             cx.assume(c.e if val else z3.Not(c.e))
             if not cx.feasible():
